@@ -86,17 +86,26 @@ Section NoClosed.
     eapply n_tr; [exact L12|apply n_inv_update].
   Qed.
 
-  Lemma n_kubectl_apply s l : nstep s (fst (kubectl_apply sc s l)).
+  Lemma n_ssa_patch l s n : nstep s (fst (ssa_patch sc s l n)).
   Proof.
-    unfold kubectl_apply. cbv zeta. destruct (ssa_mode sc).
-    - destruct (faulted sc _); cbn [fst]; [ns|].
-      destruct (find_obj _ _); destruct (match o_dry (sc_opts sc) with DServer => true | _ => false end); cbn [fst]; ns.
-    - pose proof (n_get_obj s (l_id l)) as G. destruct (get_obj sc s (l_id l)) as [s1 g]. cbn [fst] in G.
-      destruct g; cbn [fst]; try exact G.
-      + destruct (is_dry _); cbn [fst]; [exact G|]. destruct (faulted sc _); cbn [fst]; ns.
-      + destruct (negb (patch_needed c l)); cbn [fst]; [exact G|].
-        destruct (is_dry _); cbn [fst]; [exact G|]. destruct (faulted sc _); cbn [fst]; ns.
+    unfold ssa_patch. cbv zeta.
+    destruct (faulted sc (FStream _ _)); cbn [fst]; [ns|].
+    destruct (faulted sc (FApply _)); cbn [fst]; [ns|].
+    destruct (find_obj _ _); destruct (match o_dry (sc_opts sc) with DServer => true | _ => false end); cbn [fst]; ns.
   Qed.
+
+  Lemma n_csa_apply l s : nstep s (fst (csa_apply sc s l)).
+  Proof.
+    unfold csa_apply. cbv zeta.
+    pose proof (n_get_obj s (l_id l)) as G. destruct (get_obj sc s (l_id l)) as [s1 g]. cbn [fst] in G.
+    destruct g; cbn [fst]; try exact G.
+    + destruct (is_dry _); cbn [fst]; [exact G|]. destruct (faulted sc _); cbn [fst]; ns.
+    + destruct (negb (patch_needed c l)); cbn [fst]; [exact G|].
+      destruct (is_dry _); cbn [fst]; [exact G|]. destruct (faulted sc _); cbn [fst]; ns.
+  Qed.
+
+  Lemma n_kubectl_apply s l : nstep s (fst (kubectl_apply sc s l)).
+  Proof. exact (kubectl_apply_step sc l (fun a b => nstep a b) n_tr (n_ssa_patch l) (n_csa_apply l) s). Qed.
 
   Lemma n_apply_one pl g s p : nstep s (apply_one sc pl g s p).
   Proof.
